@@ -243,10 +243,10 @@ Proof.
 Qed.
 
 (* onLCPDown establishes the invariant from (almost) nothing *)
-Lemma on_lcp_down_T : forall rfc td hl i acc,
-  T (fun s mn => acc = false -> alloc_pool s = false /\ cur4 s = ANone /\ v6 s = v60) (on_lcp_down (mkV4 true rfc td hl) i) (Inv acc).
+Lemma on_lcp_down_T : forall rfc td hl sf i acc,
+  T (fun s mn => acc = false -> alloc_pool s = false /\ cur4 s = ANone /\ v6 s = v60) (on_lcp_down (mkV5 true rfc td hl sf) i) (Inv acc).
 Proof.
-  intros rfc td hl i acc mn0 m H. unfold on_lcp_down. cbn [vrep].
+  intros rfc td hl sf i acc mn0 m H. unfold on_lcp_down. cbn [vrep].
   set (m0 := upd (set_pend None PtNone) m).
   set (m1 := ncp_apply i Ipcp fsm_down m0).
   set (m2 := ncp_apply i Ip6cp fsm_down m1).
@@ -464,6 +464,21 @@ Proof.
   intros acc s mn L [[g1 g2 g3 g4 g5] a1 a2].
   assert (N : in_net (ph s) = false) by (destruct g5; congruence).
   constructor; [constructor|..]; cbn; auto; try congruence.
+Qed.
+
+(* the dataplane add failed: the session is torn down, the monitor forgets the accept *)
+Lemma sb_fail_Inv : forall v acc s mn1 n fr q f6,
+  Inv acc s mn1 -> W (Inv acc) mn1 (sb_fail v (mkM s n fr q [] f6)).
+Proof.
+  intros v acc s mn1 n fr q f6 K. unfold sb_fail. cbn [ms]. destruct (live s) eqn:L.
+  - assert (T1 : W (Inv acc) mn1 (terminate (upd (set_live false) (emit OLifeR (mkM s n fr q [] f6))))).
+    { apply terminate_T. apply W_emit_plain; [reflexivity|]. exists mn1. split; [reflexivity|exact K]. }
+    destruct T1 as (mx & Hm & HI). unfold W. cbn [emit ms mo]. apply Wl_cons. exists mx. split; [exact Hm|].
+    exists mon0. split; [reflexivity|]. eapply Inv_dead_reset; [|exact HI].
+    unfold terminate. destruct s. cbn.
+    match goal with |- context [in_net ?p] => destruct (in_net p) end; reflexivity.
+  - destruct (vsf v); [exists mn1; split; [reflexivity|exact K]|].
+    repeat (apply W_emit_plain; [reflexivity|]). exists mn1. split; [reflexivity|exact K].
 Qed.
 
 (* ------------------------------------------------------------------ *)
